@@ -128,6 +128,13 @@ CHECKS = {
         design="§3 C11",
         note="Trusted: testing/synctest quiescence; the scripted sinks. The insert failure is injected by a decorator on repository.Headers for one hash.",
     ),
+    "C18": dict(
+        engine="netwalk",
+        technique="explicit-state search with replay inside testing/synctest bubbles: (a) BFS over {add(inbound|outbound|persistent, host1|host2), done, ban, clock advance ban/2 and ban} on a real peerState through the real handleAddPeerMsg / handleDonePeerMsg / handleBanPeerMsg (in-package driver), state = multiset of admitted (kind, host) + ban buckets, oracle = counting model at the production limits, plus a directed run to the total limit; (b) BFS over environment answers {dial success, dial refusal, disconnect(conn), remove(conn), retry timer} on the real connmgr.ConnManager with scripted GetNewAddress / Dial / OnConnection for target 1..3 and two address policies, invariant 'open connections <= target' in every state and the fair continuation (every dial succeeds) must reach exactly the target, plus the directed 26-refusals-of-one-address run",
+        text="Exhaustive to depth 8 (admission) / 7 (connection manager) in the quick tier, 10 / 9 thorough; state sets close by deduplication. addrmgr's address selection is not explored (GetNewAddress is scripted).",
+        design="§3 C18",
+        note="Trusted: testing/synctest fake clock; peers built in-package as they look after a version exchange (no sockets).",
+    ),
 }
 
 NOT_YET = "check not built yet in this session (work in progress; see DESIGN.md §7 for the order of work)"
@@ -187,7 +194,7 @@ ENGINES = [
      "kind_free_text": "BFS over operation sequences and complete request products on the production gin engine / websocket connect handler over SQL-backed services"},
     {"name": "domwalk", "path": "harness/domwalk", "serves_properties": ["C14", "C19", "C20"],
      "kind_free_text": "complete enumeration of finite input domains (wire frames and their single-fault mutations, 32-bit arithmetic domain, configuration keys x sources) against independent references"},
-    {"name": "netwalk", "path": "harness/netwalk", "serves_properties": ["C06", "C07"],
+    {"name": "netwalk", "path": "harness/netwalk", "serves_properties": ["C06", "C07", "C18"],
      "kind_free_text": "explicit-state search over the P2P environment inside testing/synctest bubbles: real sync engines against scripted wire-level nodes, fake clock, quiescence barrier after every event, fair-closure liveness oracle in every state"},
     {"name": "schedwalk", "path": "harness/schedwalk", "serves_properties": ["C11", "C15"],
      "kind_free_text": "stateless model checking under a controlled scheduler: every interleaving of 2-3 threads at repository-call / notification granularity, replay-based DFS, preemption bounding, state memoisation, lock-aware enabledness"},
